@@ -18,6 +18,13 @@ package main
 //              4 equal to the previous same-typed block (equal values in distinct cells)  5 negation of the previous block
 //              6 sparse / small / non-canonical (sparse tower element, small multiple, Z=0 with X,Y≠0, negative scalar)
 //   seed       hex u64 seeding every remaining choice (random values, slice lengths, by-value parameters)
+// INTERIOR aliasing (optional 5th token): a pointer operand of a LOWER-level type pointing INTO another parameter of a larger
+// type (`z.MulByElement(z, &z.A0)`, `z.MulBy034(&z.C0.B0, …)`, `p.ScalarMultiplication(q, &…)`):
+//   C19 <pkgpath.Type> <Method> <partition> <kinds>:<seed> <p>.<q>.<i>[,<p>.<q>.<i>…]
+//   position p (a singleton block, pointer operand) is, in the aliased call, the i-th sub-object (depth-first over struct fields
+//   and array entries) of type key(p) inside the cell of position q; in the reference call it is a fresh cell holding the VALUE
+//   that sub-object has before the call (the kind digit of p's block is ignored). Compared as above; p counts as a member of
+//   q's block (a cell inside a destination is not required to be preserved; inside a pure operand it is).
 // answer:   same=<0|1> ops=<0|1>   |  panic  |  bad-op
 // With GV_C19_DETAIL=1 the executor appends what differed (recv, out<i>, op<pos>, repr = raw representation differs but Equal()).
 
@@ -743,6 +750,132 @@ func (f *c19Filler) fillSlice(t reflect.Type, n, kind int, prev reflect.Value) r
 	return v
 }
 
+// ---------------------------------------------------------------- interior aliasing
+
+type c19Inter struct{ p, q, idx int }
+
+type c19SubKey struct{ outer, target reflect.Type }
+
+var c19SubCache sync.Map
+
+// paths (field / array indices) of every sub-object of type target strictly inside a value of type outer, depth-first;
+// pointers, slices and big.Int internals are other memory and are not entered
+func c19Subs(outer, target reflect.Type) [][]int {
+	k := c19SubKey{outer, target}
+	if v, ok := c19SubCache.Load(k); ok {
+		return v.([][]int)
+	}
+	var out [][]int
+	var rec func(t reflect.Type, path []int)
+	rec = func(t reflect.Type, path []int) {
+		if len(path) > 0 && t == target {
+			out = append(out, append([]int(nil), path...))
+			return
+		}
+		if t == bigT || c19Class(t) == clsField {
+			return
+		}
+		switch t.Kind() {
+		case reflect.Struct:
+			for i := 0; i < t.NumField(); i++ {
+				if t.Field(i).IsExported() {
+					rec(t.Field(i).Type, append(path, i))
+				}
+			}
+		case reflect.Array:
+			for i := 0; i < t.Len(); i++ {
+				rec(t.Elem(), append(path, i))
+			}
+		}
+	}
+	if outer != target {
+		rec(outer, nil)
+	}
+	c19SubCache.Store(k, out)
+	return out
+}
+
+func c19Sub(v reflect.Value, path []int) reflect.Value {
+	for _, i := range path {
+		if v.Kind() == reflect.Struct {
+			v = v.Field(i)
+		} else {
+			v = v.Index(i)
+		}
+	}
+	return v
+}
+
+func c19InterString(in []c19Inter) string {
+	var f []string
+	for _, x := range in {
+		f = append(f, fmt.Sprintf("%x.%x.%d", x.p, x.q, x.idx))
+	}
+	return strings.Join(f, ",")
+}
+
+// syntactic validation shared with the Lean side: items p.q.i, p and q one lower-case hex digit < n, p ≠ q, p a singleton block,
+// no p twice, no q that is itself some p, i = 1..3 decimal digits
+func c19ParseInter(s string, blocks [][]int) ([]c19Inter, bool) {
+	n := 0
+	single := map[int]bool{}
+	for _, b := range blocks {
+		n += len(b)
+		if len(b) == 1 {
+			single[b[0]] = true
+		}
+	}
+	var out []c19Inter
+	isP := map[int]bool{}
+	for _, it := range strings.Split(s, ",") {
+		f := strings.Split(it, ".")
+		if len(f) != 3 || len(f[0]) != 1 || len(f[1]) != 1 || len(f[2]) < 1 || len(f[2]) > 3 {
+			return nil, false
+		}
+		hex := func(c byte) int {
+			switch {
+			case c >= '0' && c <= '9':
+				return int(c - '0')
+			case c >= 'a' && c <= 'f':
+				return int(c-'a') + 10
+			}
+			return 99
+		}
+		p, q := hex(f[0][0]), hex(f[1][0])
+		idx := 0
+		for _, ch := range f[2] {
+			if ch < '0' || ch > '9' {
+				return nil, false
+			}
+			idx = idx*10 + int(ch-'0')
+		}
+		if p >= n || q >= n || p == q || !single[p] || isP[p] {
+			return nil, false
+		}
+		isP[p] = true
+		out = append(out, c19Inter{p, q, idx})
+	}
+	for _, x := range out {
+		if isP[x.q] {
+			return nil, false
+		}
+	}
+	return out, true
+}
+
+// type-level validity of an interior item for a method
+func c19InterOK(me *c19Meth, in []c19Inter) bool {
+	for _, x := range in {
+		if x.p == 0 || x.p >= len(me.pos) || x.q >= len(me.pos) || me.pos[x.p].slice || me.pos[x.q].slice {
+			return false
+		}
+		if x.idx >= len(c19Subs(me.pos[x.q].key, me.pos[x.p].key)) {
+			return false
+		}
+	}
+	return true
+}
+
 // ---------------------------------------------------------------- one experiment
 
 type c19Result struct {
@@ -769,7 +902,7 @@ func (me *c19Meth) dests(ty *c19Type) []bool {
 		}
 		for s := uint64(1); s <= 6; s++ {
 			k := strings.Repeat(string("336"[s%3]), len(blocks))
-			for _, p := range c19Run0(ty, me, blocks, k, s*0x9e3779b9, true).outParams {
+			for _, p := range c19Run0(ty, me, blocks, k, s*0x9e3779b9, true, nil).outParams {
 				me.dest[p] = true
 			}
 		}
@@ -777,11 +910,11 @@ func (me *c19Meth) dests(ty *c19Type) []bool {
 	return me.dest
 }
 
-func c19Run(ty *c19Type, me *c19Meth, blocks [][]int, kinds string, seed uint64) c19Result {
-	return c19Run0(ty, me, blocks, kinds, seed, false)
+func c19Run(ty *c19Type, me *c19Meth, blocks [][]int, kinds string, seed uint64, inter ...c19Inter) c19Result {
+	return c19Run0(ty, me, blocks, kinds, seed, false, inter)
 }
 
-func c19Run0(ty *c19Type, me *c19Meth, blocks [][]int, kinds string, seed uint64, probe bool) (res c19Result) {
+func c19Run0(ty *c19Type, me *c19Meth, blocks [][]int, kinds string, seed uint64, probe bool, inter []c19Inter) (res c19Result) {
 	f := &c19Filler{r: newRng(seed)}
 	ft := me.m.Type
 	npos := len(me.pos)
@@ -827,6 +960,14 @@ func c19Run0(ty *c19Type, me *c19Meth, blocks [][]int, kinds string, seed uint64
 			vals[b] = v
 		}
 	}
+	// interior operands: the value of p is the value of the sub-object it will point at
+	interOf := map[int]*c19Inter{}
+	for i := range inter {
+		x := &inter[i]
+		interOf[x.p] = x
+		path := c19Subs(me.pos[x.q].key, me.pos[x.p].key)[x.idx]
+		vals[blockOf[x.p]] = c19Copy(c19Sub(vals[blockOf[x.q]], path))
+	}
 	// by-value parameters
 	byVal := map[int]reflect.Value{}
 	isPos := map[int]bool{}
@@ -857,6 +998,9 @@ func c19Run0(ty *c19Type, me *c19Meth, blocks [][]int, kinds string, seed uint64
 			}
 			for p := range me.pos {
 				o.cells[p] = bc[blockOf[p]]
+			}
+			for _, x := range inter { // the operand IS the sub-object
+				o.cells[x.p] = c19Sub(o.cells[x.q], c19Subs(me.pos[x.q].key, me.pos[x.p].key)[x.idx])
 			}
 		} else {
 			for p := range me.pos {
@@ -936,6 +1080,9 @@ func c19Run0(ty *c19Type, me *c19Meth, blocks [][]int, kinds string, seed uint64
 	for p := range me.pos {
 		if dest[p] {
 			ndest[blockOf[p]]++
+			if x := interOf[p]; x != nil { // a written cell inside q's object: one more destination in q's block
+				ndest[blockOf[x.q]]++
+			}
 		}
 	}
 	if ndest[0] <= 1 {
@@ -974,6 +1121,17 @@ func c19Run0(ty *c19Type, me *c19Meth, blocks [][]int, kinds string, seed uint64
 		cmp(a, b, fmt.Sprintf("out%d", i))
 	}
 	for b, bl := range blocks {
+		if x := interOf[bl[0]]; x != nil {
+			// p lives inside q's block: preserved iff q's block is (checked there); an out-parameter is compared when it is the
+			// only destination of q's block
+			switch {
+			case dest[x.p] && ndest[blockOf[x.q]] == 1:
+				cmp(ref.cells[x.p], ali.cells[x.p], fmt.Sprintf("outparam%x", x.p))
+			case dest[x.p]:
+				res.dstdst = true
+			}
+			continue
+		}
 		switch {
 		case ndest[b] > 1:
 			res.dstdst = true
@@ -994,7 +1152,7 @@ func c19Run0(ty *c19Type, me *c19Meth, blocks [][]int, kinds string, seed uint64
 }
 
 func execC19(a []string) string {
-	if len(a) != 4 {
+	if len(a) != 4 && len(a) != 5 {
 		return "bad-op"
 	}
 	blocks, ok := c19ParsePart(a[2])
@@ -1004,6 +1162,12 @@ func execC19(a []string) string {
 	kinds, seed, ok := c19ParseSeed(a[3], len(blocks))
 	if !ok {
 		return "bad-op"
+	}
+	var inter []c19Inter
+	if len(a) == 5 {
+		if inter, ok = c19ParseInter(a[4], blocks); !ok {
+			return "bad-op"
+		}
 	}
 	reg, _ := c19Registry()
 	ty, ok := reg[a[0]]
@@ -1028,10 +1192,10 @@ func execC19(a []string) string {
 			}
 		}
 	}
-	if n != len(me.pos) {
+	if n != len(me.pos) || !c19InterOK(me, inter) {
 		return "bad-op"
 	}
-	r := c19Run(ty, me, blocks, kinds, seed)
+	r := c19Run(ty, me, blocks, kinds, seed, inter...)
 	s := fmt.Sprintf("same=%s ops=%s", boolStr(r.same), boolStr(r.ops))
 	if r.onePanic {
 		s = "panic"
@@ -1069,6 +1233,9 @@ func genC19(g *gen) {
 	bothP := map[string]int{}
 	nDstDst := 0
 	kindPool := "0123334566"
+	nInterSeeds := g.budget(2, 8)
+	nInter := 0
+	nIntMeth := map[string]bool{}
 	for _, tn := range names {
 		ty := reg[tn]
 		used := false
@@ -1140,6 +1307,99 @@ func genC19(g *gen) {
 					}
 				}
 			}
+			// interior aliasing: every pointer operand p of a lower-level type x every other non-slice position q whose type
+			// contains sub-objects of p's type x EVERY such sub-object x partitions of the remaining positions (all when few,
+			// else all-distinct, coarsest and two random ones) x seeds; plus one line per q with ALL lower-level operands inside q
+			parts := c19Partitions(me.pos)
+			for q := 0; q < len(me.pos); q++ {
+				if me.pos[q].slice {
+					continue
+				}
+				var cand []int
+				for p := 1; p < len(me.pos); p++ {
+					if p == q || me.pos[p].slice || len(c19Subs(me.pos[q].key, me.pos[p].key)) == 0 {
+						continue
+					}
+					cand = append(cand, p)
+				}
+				if len(cand) > 0 {
+					nIntMeth[tn+"."+me.name] = true
+				}
+				run := func(blocks [][]int, s int, inter []c19Inter) {
+					kb := make([]byte, len(blocks))
+					for i := range kb {
+						if s == 0 {
+							kb[i] = '3'
+						} else {
+							kb[i] = kindPool[g.rng.intn(len(kindPool))]
+						}
+					}
+					seed := g.rng.u64() >> uint(4*g.rng.intn(14))
+					r := c19Run(ty, me, blocks, string(kb), seed, inter...)
+					line := fmt.Sprintf("C19 %s %s %s %s:%x %s", tn, me.name, c19PartString(blocks), kb, seed, c19InterString(inter))
+					g.emit("%s", line)
+					nLines++
+					nInter++
+					if r.bothPanic {
+						nBothPanic++
+						bothP[tn+"."+me.name+": "+r.refPanicAt]++
+					}
+					if r.dstdst {
+						nDstDst++
+					}
+					if !r.same || !r.ops {
+						bad = append(bad, fmt.Sprintf("%s -> same=%v ops=%v %s", line, r.same, r.ops, strings.Join(r.detail, ",")))
+					}
+				}
+				singleton := func(blocks [][]int, ps ...int) bool {
+					for _, p := range ps {
+						for _, b := range blocks {
+							if len(b) > 1 {
+								for _, x := range b {
+									if x == p {
+										return false
+									}
+								}
+							}
+						}
+					}
+					return true
+				}
+				for _, p := range cand {
+					var ok [][][]int
+					for _, blocks := range parts {
+						if singleton(blocks, p) {
+							ok = append(ok, blocks)
+						}
+					}
+					if len(ok) > 5 { // all-distinct is last, the coarsest first in c19Partitions' order
+						pick := [][][]int{ok[0], ok[len(ok)-1], ok[1+g.rng.intn(len(ok)-2)], ok[1+g.rng.intn(len(ok)-2)]}
+						ok = pick
+					}
+					nsub := len(c19Subs(me.pos[q].key, me.pos[p].key))
+					for _, blocks := range ok {
+						for idx := 0; idx < nsub; idx++ {
+							for s := 0; s < nInterSeeds; s++ {
+								run(blocks, s, []c19Inter{{p, q, idx}})
+							}
+						}
+					}
+				}
+				if len(cand) > 1 {
+					for _, blocks := range parts {
+						if !singleton(blocks, cand...) {
+							continue
+						}
+						for s := 0; s < 2*nInterSeeds; s++ {
+							var in []c19Inter
+							for _, p := range cand {
+								in = append(in, c19Inter{p, q, g.rng.intn(len(c19Subs(me.pos[q].key, me.pos[p].key)))})
+							}
+							run(blocks, s, in)
+						}
+					}
+				}
+			}
 			if okCalls == 0 {
 				deadMeth = append(deadMeth, tn+"."+me.name)
 			}
@@ -1150,11 +1410,21 @@ func genC19(g *gen) {
 	}
 	// malformed stream (both sides: bad-op)
 	for _, l := range []string{"C19", "C19 a b 0|1", "C19 a b 0|0 33:1", "C19 a b 1|0 33:1", "C19 a b 0|2 33:1", "C19 a b 0||1 33:1", "C19 a b 10 3:1",
-		"C19 a b 0|1 3:1", "C19 a b 0|1 37:1", "C19 a b 0|1 33:", "C19 a b 0|1 33:xyz", "C19 a b 0|1 33:11111111111111111", "C19 a b 0|1 33", "C19 a b 0|1 33:1 extra", "C19 a b 0A 3:1"} {
+		"C19 a b 0|1 3:1", "C19 a b 0|1 37:1", "C19 a b 0|1 33:", "C19 a b 0|1 33:xyz", "C19 a b 0|1 33:11111111111111111", "C19 a b 0|1 33", "C19 a b 0|1 33:1 extra", "C19 a b 0A 3:1",
+		"C19 a b 0|1 33:1 1.0", "C19 a b 0|1 33:1 1.1.0", "C19 a b 0|1 33:1 2.0.0", "C19 a b 01 3:1 1.0.0", "C19 a b 0|1|2 333:1 1.0.0,1.2.0", "C19 a b 0|1|2 333:1 1.2.0,2.0.0",
+		"C19 a b 0|1 33:1 1.0.1234", "C19 a b 0|1 33:1 1.0.x", "C19 a b 0|1 33:1 1.0.0,", "C19 a b 0|1 33:1 1.0.0 extra", "C19 a b 0|1 33:1 A.0.0"} {
 		g.emit("%s", l)
 	}
 	fmt.Fprintf(errw, "C19 coverage: %d registered types (%d with exercised methods), %d methods, %d (method, partition) pairs, %d op lines; %d lines where both calls panic (counted as agreement), %d lines with representation-only difference\n",
 		len(names), nTypes, nMeth, nPart, nLines, nBothPanic, nRepr)
+	{
+		var im []string
+		for k := range nIntMeth {
+			im = append(im, k)
+		}
+		sort.Strings(im)
+		fmt.Fprintf(errw, "C19 interior aliasing (lower-level pointer operand pointing INTO another parameter): %d methods, %d op lines, e.g. %s\n", len(im), nInter, strings.Join(c19Head(im, 8), " "))
+	}
 	if !quiet {
 		var ks []string
 		for k := range skipped {
